@@ -175,6 +175,49 @@ theorem C20_mdd_running_peak_form (x : Rat) (r : List Rat) (hp : AllPos (x :: r)
   rw [max_eq_right (maxDecl_nonneg x r)]
   exact (max_eq_right (le_max_left _ _)).symm
 
+/-! ### series outside the property's domain (zeros, negative values): the result is still never negative -/
+
+theorem Metrics.hlStep_weak (xs : List Rat) (s : HL) (i : Nat) (h : s.g = dd xs s.gHigh s.gLow ∧ 0 ≤ s.g) :
+    (hlStep xs s i).g = dd xs (hlStep xs s i).gHigh (hlStep xs s i).gLow ∧ 0 ≤ (hlStep xs s i).g := by
+  unfold hlStep
+  simp only
+  generalize (if nth xs s.iHigh < nth xs (i - 1) then i - 1 else s.iHigh) = H
+  by_cases h1 : 0 < nth xs H
+  · simp only [h1, if_true]
+    by_cases h2 : s.g < (nth xs H - nth xs i) / nth xs H
+    · simp only [h2, if_true]
+      exact ⟨rfl, le_of_lt (lt_of_le_of_lt h.2 h2)⟩
+    · simp only [h2, if_false]
+      exact h
+  · simp only [h1, if_false]
+    exact h
+
+theorem Metrics.hlRun_weak (xs : List Rat) (k : Nat) :
+    (hlRun xs k).g = dd xs (hlRun xs k).gHigh (hlRun xs k).gLow ∧ 0 ≤ (hlRun xs k).g := by
+  induction k with
+  | zero =>
+    rw [hlRun_zero, C20_mdd_scan_start_pinned.2.2.2]
+    simp [dd_self]
+  | succ k ih => rw [hlRun_succ]; exact hlStep_weak xs _ _ ih
+
+/-- for **any** series — zeros and negative values included — a finite result of `max_draw_down` is non-negative
+    (before the repair a rising series gave −1) -/
+theorem C20_mdd_never_negative (xs : List Rat) (v : Rat) (h : maxDrawDown xs = .ok v) : 0 ≤ v := by
+  unfold maxDrawDown at h
+  split at h
+  · exact absurd h (by simp)
+  · simp only at h
+    split at h
+    · exact absurd h (by simp)
+    · simp only [Except.ok.injEq] at h
+      have hw := hlRun_weak xs (xs.length - 1)
+      unfold withdrawHighLow at h
+      rw [← h]
+      have := hw.1
+      unfold dd at this
+      rw [← this]
+      exact hw.2
+
 /-! ### the scan as it was before the repair does not compute the definition (the defect, on its witnesses) -/
 
 /-- the old scan maximised the absolute decline: on `[1, 1/2, 100, 60]` it reported 0.4, the definition is 0.5 -/
